@@ -67,7 +67,7 @@ Terms(m) == [i \in 1..m |-> "t"]
 \* onames[i]) -- and odecl is the order in which the author wrote them in Node(outputs = [...]) (positions in onames)
 MkNodeH(nout, yields, ins, st, v, yv, onames, odecl) ==
   [nout |-> nout, yields |-> yields, yvals |-> yv, coords |-> Coords(nout), inputs |-> ins,
-   args |-> Args(st, Len(ins), v), kwargs |-> Kwargs(st, v), onames |-> onames, odecl |-> odecl]
+   args |-> Args(st, Len(ins), v), kwargs |-> Kwargs(st, v), onames |-> onames, odecl |-> odecl, fn |-> ""]
 MkNodeY(nout, yields, ins, st, v, yv) == MkNodeH(nout, yields, ins, st, v, yv, <<>>, <<>>)
 MkNodeV(nout, yields, ins, st, v) == MkNodeY(nout, yields, ins, st, v, Terms(yields))
 MkNode(nout, yields, ins, st) == MkNodeV(nout, yields, ins, st, IntA(7))
@@ -120,10 +120,23 @@ HandCases == UNION {{HandGraph(nm, d, Len(nm), fed, cons) : d \in Decls(Len(nm))
                                                            cons \in {<<>>} \cup {<<i>> : i \in 0..(Len(nm) - 1)} \cup {<<Len(nm) - 1, 0>>}} : nm \in SortedNameSets}
         \cup UNION {{HandGraph(nm, d, M, FALSE, <<>>) : d \in Decls(Len(nm)), M \in {Len(nm) - 1, Len(nm) + 1}} : nm \in SortedNameSets}
 
+\* (5) ONE callable object ("s", the same function object for every node and every case of the run) used by nodes that declare
+\*     different outputs: s(n, tag, ...) returns a plain value for n = 0 and yields n values otherwise; fluent nodes with 1 / 2 /
+\*     3 / 11 outputs and hand-built ones with other output names, two such nodes in one graph in both orders (and, the cases
+\*     being lowered one after the other in one process, across lowerings), optionally with a consumer of the last output
+SNode(j, nout, onames) == [MkNodeH(nout, nout, <<>>, 1, IntA(7), Terms(nout), onames, [i \in DOMAIN onames |-> i])
+                             EXCEPT !.args = <<IntA(IF nout = 1 THEN 0 ELSE nout), IntA(100 + j)>>, !.fn = "s"]
+SKinds == {<<1, <<>>>>, <<2, <<>>>>, <<3, <<>>>>, <<11, <<>>>>, <<2, <<"a", "b">>>>, <<3, <<"aa", "b", "c">>>>}
+SharedFnCases == {[nodes |-> <<SNode(1, k1[1], k1[2]), SNode(2, k2[1], k2[2])>>] : k1 \in SKinds, k2 \in SKinds}
+            \cup {[nodes |-> <<SNode(1, k1[1], k1[2]), SNode(2, k2[1], k2[2]), MkNode(1, 1, <<<<2, k2[1] - 1>>, <<1, k1[1] - 1>>>>, 3)>>] :
+                     k1 \in SKinds, k2 \in SKinds}
+            \cup {[nodes |-> <<SNode(1, k[1], k[2])>>] : k \in SKinds}
+
 \* ======================================================================== reference semantics
 RECURSIVE JoinSeq(_, _)
 JoinSeq(s, sep) == IF s = <<>> THEN "" ELSE IF Len(s) = 1 THEN s[1] ELSE s[1] \o sep \o JoinSeq(Tail(s), sep)
 Name(j) == "n" \o ToString(j)
+Label(c, j) == IF c.nodes[j].fn = "" THEN Name(j) ELSE c.nodes[j].fn      \* __name__ of the callable of node j
 \* the positional arguments as fluent.Node completes them: inputs that args does not mention are appended in input order
 Mentioned(nd) == {nd.args[k].i : k \in {k \in DOMAIN nd.args : nd.args[k].t = "in"}}
 FinalArgs(nd) == nd.args \o [m \in 1..Cardinality((1..Len(nd.inputs)) \ Mentioned(nd)) |->
@@ -140,7 +153,7 @@ Render(c, j, a) == IF a.t = "int" THEN ToString(a.i)
                    ELSE OutStr(c, c.nodes[j].inputs[a.i][1], c.nodes[j].inputs[a.i][2])
 CallStr(c, j) == LET nd == c.nodes[j]
                      F == FinalArgs(nd)
-                 IN Name(j) \o "(" \o JoinSeq([k \in DOMAIN F |-> Render(c, j, F[k])], ",") \o "){"
+                 IN Label(c, j) \o "(" \o JoinSeq([k \in DOMAIN F |-> Render(c, j, F[k])], ",") \o "){"
                             \o JoinSeq([k \in DOMAIN nd.kwargs |-> nd.kwargs[k][1] \o "=" \o Render(c, j, nd.kwargs[k][2])], ",") \o "}"
 
 Mismatch(c, j) == c.nodes[j].nout > 1 /\ c.nodes[j].yields # c.nodes[j].nout
@@ -155,7 +168,7 @@ Reached(c, j) == \A i \in Anc(c, ParentsOf(c, j), Len(c.nodes)) : ~Mismatch(c, i
 \*      coords |-> << <<  <<label, output name>> .. >> >> (per node: what fluent.Action maps each coordinate to; <<>> if nout = 1),
 \*      tasks |-> <<[name, outputs |-> <<..>>, static_ps |-> << <<pos, rendered>> >>, static_kw |-> << <<key, rendered>> >>]>>,
 \*      edges |-> << <<source task, source output, sink task, position or -1, keyword or "">> >>,
-\*      calls |-> << <<task, rendered call>> >>, failures |-> <<task>>, datasets |-> << <<task, output, rendered value>> >>]
+\*      calls |-> << <<task during whose run the call was observed, rendered call>> >>, failures |-> <<task>>, datasets |-> << <<task, output, rendered value>> >>]
 Post(c, r) ==
   LET n == Len(c.nodes)
       nm(j) == r.names[j]
@@ -198,7 +211,7 @@ Post(c, r) ==
   \cup (IF \A j \in good : nm(j) \notin SetOf(r.failures) THEN {} ELSE {"task_failure_without_cause"})
 
 \* ======================================================================== the two TLC passes
-Generate == JsonSerialize(IOEnv.CASES_FILE, SetToSeq(BindCases) \o SetToSeq(OutCases) \o SetToSeq(FalsyCases) \o SetToSeq(HandCases))
+Generate == JsonSerialize(IOEnv.CASES_FILE, SetToSeq(BindCases) \o SetToSeq(OutCases) \o SetToSeq(FalsyCases) \o SetToSeq(HandCases) \o SetToSeq(SharedFnCases))
 Judge ==
   LET cs == JsonDeserialize(IOEnv.CASES_FILE)
       rs == JsonDeserialize(IOEnv.RESULTS_FILE)
